@@ -34,7 +34,7 @@ ASSUMPTIONS = [
 SHARDS = {"quick": 8, "thorough": 16}
 TIMEOUT = {"quick": 600, "thorough": 3600}
 MIN_CASES = {"quick": 1500, "thorough": 30000}
-REQUIRED_COUNTERS = ["requests_compared", "transport_calls_counted", "encrypted_requests", "plaintext_phase_requests", "multi_frame_requests", "json_bodies_scanned", "reconnects_to_other_address"]
+REQUIRED_COUNTERS = ["requests_compared", "transport_calls_counted", "encrypted_requests", "plaintext_phase_requests", "multi_frame_requests", "json_bodies_scanned", "reconnects_to_other_address", "hard_json_refused"]
 
 HOSTS = ["10.0.0.5", "192.168.100.200", "fd00::5", "2001:db8::1:2", "fe80::1234%eth0", "fe80::1%3"]
 JSON_CT = "application/hap+json"
@@ -270,6 +270,21 @@ async def run_session(ctx, idx) -> None:
             await s.call("post_tlv", c.post_tlv("/x/tlv", items), expect_one("POST", "/x/tlv", reftlv.encode(items), TLV_CT))
             # zero-length bodies: recorded only
             await s.call("put(0)", c.put(target, b""), lambda reqs, res: [])
+            # values at the edge of what the serialiser takes (beyond 64-bit integers, nesting deeper than 254, lone
+            # surrogates, non-string keys, non-finite floats): either the call fails and NOTHING is sent, or what is sent is
+            # compact JSON like every other body (scanned in call())
+            hard = hard_json(rng, k)
+
+            def either(reqs, res):
+                if isinstance(res, Exception) and not reqs:
+                    ctx.count("hard_json_refused")
+                    return []
+                if len(reqs) == 1 and not isinstance(res, Exception):
+                    ctx.count("hard_json_sent")
+                    return []
+                return [f"{len(reqs)} request(s) sent, result {res!r}"]
+
+            await s.call("put_json-hard", c.put_json("/echo-json", hard), either)
         # ---- pairing API ----
         p = w.pairing
         await s.call("list_accessories", p.list_accessories_and_characteristics(), expect_one("GET", "/accessories"))
@@ -345,6 +360,24 @@ def gen_value(rng):
     if r < 0.8:
         return rng.choice(["on", "a b  c", "tab\there", "näme ünïcode ☃", 'quote " and \\ backslash', "line\nbreak", "AAECAwQ=", ""])
     return gen_json(rng, 1)
+
+
+def hard_json(rng, k):
+    deep = cur = []
+    for _ in range(rng.choice([200, 254, 255, 300])):
+        nxt = [] if rng.random() < 0.5 else {}
+        if isinstance(cur, list):
+            cur.append(nxt)
+        else:
+            cur["d"] = nxt
+        cur = nxt
+    pool = [
+        {"big": 2**64}, {"big": 2**64 - 1}, {"neg": -(2**63) - 1}, {"huge": 10**40, "l": [1, 2]}, [2**63, -(2**63)],
+        {"deep": deep, "x": 1}, deep,
+        {"s": "lone \ud800 surrogate", "t": 1}, {1: "int key", 2.5: "float key", "n": [1, 2]}, {"f": [float("nan"), float("inf"), 1.5]},
+        {"bytes": b"raw"}, {"t": (1, 2)}, {"set": {1}},
+    ]
+    return pool[(k + rng.randrange(len(pool))) % len(pool)]
 
 
 def gen_json(rng, depth):
